@@ -3,6 +3,7 @@ package gosym
 // The harness API (package zzverif) as engine intrinsics.
 
 import (
+	"os"
 	"crypto/sha256"
 	"encoding/hex"
 	"fmt"
@@ -65,7 +66,8 @@ func (e *Engine) nondet(s *State, tag string, sort Sort, kind string) *Term {
 	if n > 0 {
 		full = fmt.Sprintf("%s#%d", tag, n)
 	}
-	v := MkVar("nd."+sanitize(full), sort)
+	// variable names are global (hash-consed terms, bounds by variable): keep harnesses apart
+	v := MkVar("nd."+sanitize(e.Harness)+"."+sanitize(full), sort)
 	s.W.Nondet = append(s.W.Nondet, NondetEntry{Tag: full, T: v, Kind: kind})
 	return v
 }
@@ -196,6 +198,12 @@ func init() {
 		first := c.E.CoverModels[id] == nil
 		c.E.mu.Unlock()
 		cm := c.S.model
+		if cm == nil {
+			cm = GuessModel(c.S.pcTerms())
+			if cm != nil {
+				c.S.model = cm
+			}
+		}
 		if cm == nil || NoModelReuse {
 			// no cached witness for this path: ask once (bounded) whether the path is feasible
 			v, m, syms, _ := c.S.pf.CheckSyms(c.E.withEvals(c.S, c.S.pcTerms()), 4*c.E.Cfg.FeasMs, true)
@@ -466,10 +474,29 @@ func (e *Engine) checkObligation(s *State, id string, cond *Term) {
 		var who string
 		var cm *CachedModel
 		sliced := append(Slice(s.pcTerms(), neg), neg)
-		if s.model != nil && !NoModelReuse && len(sliced) < pcLen(s)+1 {
+		if len(sliced) < pcLen(s)+1 {
 			v, m, syms, who = s.pf.CheckSyms(e.withEvalsIn(s, sliced), e.Cfg.AssertMs, true)
+			if v == Sat && (s.model == nil || NoModelReuse) {
+				v = Unknown // a model of the cone alone proves nothing without a model of the rest: ask in full
+			}
 			if v == Sat {
 				cm = NewCachedModel(s.model, m, syms)
+				if os.Getenv("GOSYM_CHECKSLICE") != "" {
+					fv, _, _, _ := s.pf.CheckSyms(append(s.pcTerms(), neg), e.Cfg.AssertMs, false)
+					pv, _, _, _ := s.pf.CheckSyms(s.pcTerms(), e.Cfg.AssertMs, false)
+					if fv != Sat {
+						bad := 0
+						for _, t := range s.pcTerms() {
+							if ev, ok := s.model.Eval(t); ok && !*ev.B {
+								bad++
+								if bad < 4 {
+									e.logfAlways("   path model falsifies: %s", t.String())
+								}
+							}
+						}
+						e.logfAlways("SLICE-CHECK %s: slice=sat full=%v pc-alone=%v slice-size=%d pc-size=%d model-falsifies=%d", id, fv, pv, len(sliced), pcLen(s), bad)
+					}
+				}
 			}
 			who += "+slice"
 		}
